@@ -246,6 +246,7 @@ package parser
 
 //@ func (*Parser).parseString
 //@ ensures result.Text == stripQuotes(s.Value) && result.NodeType == ast.NodeString
+//@ ensures [C06,string-is-the-text-between-its-quotes] quoted(s.Value) ==> result.Text == s.Value[1:len(s.Value) - 1]
 
 //@ func (*Parser).parseCommand
 //@ ensures result.Command == command.Value && result.NodeType == ast.NodeCommand
